@@ -522,6 +522,12 @@ theorem failed_op_no_trace (size : Nat) (o : DqOp α) (os : List (DqOp α)) (l :
     opsFailed size (o :: os) l = true :: opsFailed size os l := by
   simp [applyOps, opsFailed, h]
 
+/-- one list of failed operations per block handed out by the loop -/
+theorem mut_fails_length (size hop : Nat) (ops : Nat → List (DqOp α)) (xs : List α) :
+    (bloopMutFails size hop ops (⟨[], 0⟩ : BState α) 0 xs).length =
+      (bloopMut size hop (fun k => applyOps size (ops k)) (⟨[], 0⟩ : BState α) 0 xs).1.length :=
+  bloopMutFails_length size hop ops xs ⟨[], 0⟩ 0
+
 /-- the length-preserving edits of C08.6 as deque operations: the same blocks (operations that do not
 fail), so `blocks_mut_eq_spec` / `mut_next_block` speak about these histories -/
 theorem blocks_mut_edits (size hop : Nat) (hs : 0 < size) (hh : 0 < hop) (pad : α)
@@ -530,6 +536,30 @@ theorem blocks_mut_edits (size hop : Nat) (hs : 0 < size) (hh : 0 < hop) (pad : 
       mutSpec size hop pad (fun k => editsLP (es k)) 0 xs :=
   blocks_mut_eq_spec size hop hs hh pad (fun k => editsLP (es k)) xs
 
+
+/-- the fields of a run with accepted int spellings: every item was pulled, the run ends cleanly iff the
+source did, and the blocks of a finished source are those of C08.1 -/
+theorem call_int_fields (dflt : α) (s h : Nat) (hs : (s : Int) ≤ maxSsize) (padval : Option α) (xs : List α)
+    (e : Ending) :
+    (blocksCall dflt (.int s) (.int h) padval true xs e).pulled = xs.length ∧
+    ((blocksCall dflt (.int s) (.int h) padval true xs e).ending = .stop ↔ e = .stop) ∧
+    (blocksCall dflt (.int s) (.int h) padval true xs .stop).events.map Prod.snd =
+      blocks s h (padval.getD dflt) xs := by
+  refine ⟨by rw [call_int dflt s h hs], ?_, ?_⟩
+  · rw [call_int dflt s h hs]
+    cases e <;> simp [blocksTrace]
+  · rw [call_int dflt s h hs, trace_stop_blocks]
+
+/-- `zero_pad` as written: positional = keyword form, omitted parameters = their defaults -/
+theorem zero_pad_apply_forms (asNum : α → Num) (asIter : α → Bool) (dflt seq l r z : α) (xs : List α) (e : Ending) :
+    zeroPadApply asNum asIter dflt [seq, l, r, z] [] xs e =
+      some (zeroPadCall dflt (some (asNum l)) (some (asNum r)) (some z) (asIter seq) xs e) ∧
+    zeroPadApply asNum asIter dflt [] [("zero", z), ("right", r), ("seq", seq), ("left", l)] xs e =
+      some (zeroPadCall dflt (some (asNum l)) (some (asNum r)) (some z) (asIter seq) xs e) ∧
+    zeroPadApply asNum asIter dflt [seq] [("right", r)] xs e =
+      some (zeroPadCall dflt none (some (asNum r)) none (asIter seq) xs e) ∧
+    zeroPadApply asNum asIter dflt [seq, l] [("left", l)] xs e = none ∧
+    ALV.C08.bind zeroPadParams 1 [seq, l, r, z, z] [] = none := ⟨rfl, rfl, rfl, rfl, rfl⟩
 
 /-! ## The call of `zero_pad` -/
 
